@@ -31,6 +31,7 @@ import (
 	"os"
 	"path/filepath"
 	"strings"
+	"syscall"
 	"testing/synctest"
 	"time"
 
@@ -162,6 +163,65 @@ func (a *vfAgent) dial() (net.Conn, error) {
 	go agent.ServeAgent(&vfAgentWrap{Agent: a.keyring, a: a}, s)
 	return c, nil
 }
+
+// ---- the client's disk ------------------------------------------------------------------------------
+
+// vfSimDisk passes the client's writes to the real file system, except that the failAt-th write operation finds
+// the disk full: half of the data is written, the rest is refused with ENOSPC.
+type vfSimDisk struct {
+	w      *vfWorld
+	failAt int
+	ops    int
+	fired  bool
+}
+
+func (d *vfSimDisk) full() bool {
+	d.ops++
+	if d.failAt > 0 && d.ops == d.failAt {
+		d.fired = true
+		d.w.fault("disk.full")
+		return true
+	}
+	return false
+}
+
+func (d *vfSimDisk) WriteFile(name string, data []byte, perm os.FileMode) error {
+	if !d.full() {
+		return os.WriteFile(name, data, perm)
+	}
+	f, err := os.OpenFile(name, os.O_WRONLY|os.O_CREATE|os.O_TRUNC, perm)
+	if err != nil {
+		return err
+	}
+	f.Write(data[:len(data)/2])
+	f.Close()
+	return &os.PathError{Op: "write", Path: name, Err: syscall.ENOSPC}
+}
+
+func (d *vfSimDisk) Create(name string) (vfhook.ClientFile, error) {
+	f, err := os.Create(name)
+	if err != nil {
+		return nil, err
+	}
+	return &vfSimFile{File: f, d: d}, nil
+}
+
+func (d *vfSimDisk) Chmod(name string, mode os.FileMode) error { return os.Chmod(name, mode) }
+
+type vfSimFile struct {
+	*os.File
+	d *vfSimDisk
+}
+
+func (f *vfSimFile) Write(b []byte) (int, error) {
+	if !f.d.full() {
+		return f.File.Write(b)
+	}
+	n, _ := f.File.Write(b[:len(b)/2])
+	return n, &os.PathError{Op: "write", Path: f.File.Name(), Err: syscall.ENOSPC}
+}
+
+func (f *vfSimFile) WriteString(s string) (int, error) { return f.Write([]byte(s)) }
 
 // ---- private key encodings --------------------------------------------------------------
 
@@ -314,6 +374,14 @@ func (w *vfWorld) clientRun(st vfStep) {
 	if runs < 1 {
 		runs = 1
 	}
+	disk := &vfSimDisk{w: w}
+	for _, o := range st.L {
+		if strings.HasPrefix(o, "diskfull:") {
+			fmt.Sscanf(o, "diskfull:%d", &disk.failAt) // the k-th file write of the first run finds the disk full
+		}
+	}
+	vfhook.ClientDisk = disk
+	defer func() { vfhook.ClientDisk = nil }()
 	origIdentity := w.state.HostIdentity
 	defer func() { w.state.HostIdentity = origIdentity }()
 	for i := 0; i < runs; i++ {
@@ -324,7 +392,14 @@ func (w *vfWorld) clientRun(st vfStep) {
 		}
 		before := len(w.agentSim.added)
 		done := make(chan error, 1)
-		go func() { done <- kmcli.VfSetupCerts(user, home, cfg, client, vfNopLogger{}) }()
+		go func() {
+			defer func() {
+				if p := recover(); p != nil {
+					done <- fmt.Errorf("client exited: %v", p) // logger.Fatal: the client process ends here
+				}
+			}()
+			done <- kmcli.VfSetupCerts(user, home, cfg, client, vfNopLogger{})
+		}()
 		var err error
 		select {
 		case err = <-done:
@@ -341,6 +416,7 @@ func (w *vfWorld) clientRun(st vfStep) {
 		}
 		w.clientOracles(st, user, home, tr, before, err)
 		tr.failAt = 0
+		disk.failAt = 0
 		if i+1 < runs {
 			time.Sleep(31 * time.Second) // a fresh TOTP period for the second run
 			setStdin(w.dirsim.Password[user])
@@ -377,7 +453,7 @@ func (w *vfWorld) clientOracles(st vfStep, user, home string, tr *vfClientTransp
 			return nil
 		}
 		info, _ := d.Info()
-		isPriv := false
+		isPriv := bytes.Contains(data, []byte("PRIVATE KEY-----")) // also a file that holds only part of one
 		for rest := data; ; {
 			var blk *pem.Block
 			blk, rest = pem.Decode(rest)
@@ -475,7 +551,7 @@ func genClientPlan(r *rand.Rand, tier string) *vfPlan {
 	add(vfStep{Op: "client_run", User: user, A: pick(r, []string{"rsa", "p256", "p384"}),
 		B: pick(r, []string{"present", "present", "absent", "refuse-lifetime", "refuse-all", "list-error"}),
 		C: pick(r, []string{"", "", "", "firstdown", fmt.Sprintf("failat:%d", 1+r.IntN(8))}), N: int64(1 + r.IntN(2)),
-		Target: pick(r, []string{"", "", "foreign"}), L: pick(r, [][]string{nil, nil, {"replica"}})})
+		Target: pick(r, []string{"", "", "foreign"}), L: pick(r, [][]string{nil, nil, {"replica"}, {fmt.Sprintf("diskfull:%d", 1+r.IntN(7))}})})
 	if chance(r, 0.3) {
 		add(vfStep{Op: "advance", D: pick(r, []string{"31s", "1h"})})
 		add(vfStep{Op: "client_run", User: user, A: pick(r, []string{"rsa", "p256", "p384"}), B: pick(r, []string{"present", "absent", "refuse-all"}), N: 1, Target: pick(r, []string{"", "foreign"})})
